@@ -290,6 +290,11 @@ func runMetaHistory(r *rand.Rand, nops int, allowBad, allowReadd bool, t *Trace)
 				t.Stat("meta.search_builder")
 			}
 			s := idx.NewSearch()
+			if r.Intn(10) == 0 { // options SET their value: decoys first, then the real ones (or nothing)
+				s = s.WithFilters(comet.Eq("cat", "a")).WithFilterGroups(&comet.FilterGroup{Logic: comet.OR, Filters: []comet.Filter{comet.Exists("n")}})
+				s = s.WithFilters().WithFilterGroups()
+				t.Stat("meta.option_set_twice")
+			}
 			if len(gs) > 0 {
 				s = s.WithFilterGroups(gs...)
 			}
